@@ -9,7 +9,8 @@ if "--real" not in sys.argv:
     env["VERIF_OUT"] = "/tmp/runall-out-%s" % seed
 for cid in sorted(set(ids)):
     t0 = time.time()
-    r = subprocess.run(["./check", cid, "--tier", "quick"], cwd=ROOT, env=env, stdout=subprocess.PIPE, stderr=subprocess.STDOUT)
+    tier = "thorough" if "--thorough" in sys.argv else "quick"
+    r = subprocess.run(["./check", cid, "--tier", tier], cwd=ROOT, env=env, stdout=subprocess.PIPE, stderr=subprocess.STDOUT)
     out = r.stdout.decode(errors="replace")
-    tail = [l for l in out.split("\n") if l.startswith(cid + " quick") or l.startswith("VIOLATION") or "why:" in l or "HARNESS" in l]
+    tail = [l for l in out.split("\n") if l.startswith(cid + " " + tier) or l.startswith("VIOLATION") or "why:" in l or "HARNESS" in l]
     print("%s seed=%s exit=%d %.0fs %s" % (cid, seed, r.returncode, time.time() - t0, " | ".join(x.strip()[:160] for x in tail[:4])), flush=True)
